@@ -53,10 +53,11 @@ type SortTable struct {
 	decls  []string // datatype declarations in registration (dependency) order
 	arrays map[string]*Sort
 	sizes  types.Sizes
+	zeroArrs map[string]bool
 }
 
 func NewSortTable() *SortTable {
-	st := &SortTable{byKey: map[string]*Sort{}, arrays: map[string]*Sort{}}
+	st := &SortTable{byKey: map[string]*Sort{}, arrays: map[string]*Sort{}, zeroArrs: map[string]bool{}}
 	return st
 }
 
@@ -260,7 +261,17 @@ func (st *SortTable) Zero(s *Sort) *Term {
 	case KBig:
 		return T(sortBig, "(mk_big 0 0)")
 	case KArray:
-		return T(s, "((as const "+s.Name+") "+st.Zero(s.Elem).S+")")
+		z := st.Zero(s.Elem)
+		if !strings.Contains(z.S, "str_empty") && !strings.Contains(z.S, "zarr_") {
+			return T(s, "((as const "+s.Name+") "+z.S+")")
+		}
+		// cvc5 only accepts values under (as const ...): use a named all-zero array instead
+		name := "zarr_" + smtName(s.Name)
+		if !st.zeroArrs[name] {
+			st.zeroArrs[name] = true
+			st.decls = append(st.decls, fmt.Sprintf("(declare-const %s %s)\n(assert (forall ((i %s)) (! (= (select %s i) %s) :pattern ((select %s i)))))", name, s.Name, s.Key.Name, name, z.S, name))
+		}
+		return T(s, name)
 	case KStruct:
 		if len(s.Fields) == 0 {
 			return T(s, s.Ctor)
